@@ -80,6 +80,21 @@ Case vf_generate() {
   return c;
 }
 
+// the same operation on another manager (no model): a second instance that lives next to the checked one and goes
+// through the same history must not influence it (nothing is shared between managers)
+static void apply_raw(rtosc::AutomationMgr &m, const Op &o) {
+  switch (o.kind) {
+    case 0: m.createBinding(o.slot, PARAMS[o.param].path, o.learn); break;
+    case 7: m.setSlotSubPath(o.slot, o.sub, PARAMS[o.param].path); break;
+    case 1: m.clearSlot(o.slot); break;
+    case 2: m.clearSlotSub(o.slot, o.sub); break;
+    case 3: m.setSlotSubGain(o.slot, o.sub, (float)o.gain); m.setSlotSubOffset(o.slot, o.sub, (float)o.offset); m.updateMapping(o.slot, o.sub); break;
+    case 4: m.setSlot(o.slot, (float)o.v1000 / 1000.0f); break;
+    case 5: m.handleMidi(o.ch, o.cc, o.val); break;
+    default: { int seq[4][2] = {{99, o.hi}, {98, o.lo}, {6, o.vhi}, {38, o.vlo}}; for (auto &q : seq) m.handleMidi(0, q[0], q[1]); break; }
+  }
+}
+
 struct MSub { bool used = false; int param = 0; float gain = 100, offset = 0; float a = 0, b = 0; float pmin = 0, pmax = 0; };
 struct MSlot { bool used = false; int cc = -1, nrpn = -1; std::vector<MSub> subs; };
 
@@ -88,6 +103,12 @@ std::string vf_run(const Case &c, vf::Ctx &ctx) {
   mgr.set_ports(App::ports);
   std::vector<std::string> out;
   mgr.backend = [&](const char *m) { out.push_back(std::string(m, rtosc_message_length(m, 256))); };
+  // every other case: a second manager of another shape runs the history shifted by one operation
+  const bool with_shadow = (c.ops.size() + (size_t)c.nslots) % 2 == 0;
+  rtosc::AutomationMgr shadow(c.nslots + 1, c.per, 4);
+  shadow.set_ports(App::ports);
+  shadow.backend = [](const char *) {};
+  if (with_shadow) ctx.count("class.second_manager_alongside");
   std::vector<MSlot> ms((size_t)c.nslots);
   for (auto &s : ms) s.subs.resize((size_t)c.per);
   std::deque<int> queue;  // slots waiting for learn, oldest first
@@ -168,6 +189,7 @@ std::string vf_run(const Case &c, vf::Ctx &ctx) {
   for (size_t oi = 0; oi < c.ops.size(); oi++) {
     const Op &o = c.ops[oi];
     std::string W = " at op " + std::to_string(oi) + D, e;
+    if (with_shadow && oi > 0) apply_raw(shadow, c.ops[oi - 1]);
     out.clear();
     bool keep_mono = false;
     switch (o.kind) {
